@@ -1,11 +1,99 @@
-(* C15 -- placeholder while the proofs are being written *)
-From Coq Require Import List String Bool.
-From EKW Require Import Backends.Tensor Backends.Ops.
+(* C15 -- array back-ends agree with NumPy; functions marked `batchable` really are batchable.
+
+   Second sentence of the property = the theorems below.  The marker table (class Backend,
+   decorator @batchable) and the dispatch tables of ArrayAPIBackend / XArrayBackend are
+   REGENERATED from src/earthkit/workflows/backends/*.py on every run (EKWgen.Batchable); marking a
+   function that is not batchable, or un-marking one, or re-routing a marked method to
+   another NumPy function makes C15_generated_tables_ok fail.
+   First sentence ("= the value NumPy gives"): Backends/Ops.v `apply` is the exact reference; it is
+   tied to numpy and to both back-ends by the value correspondence of harness/c15.py, no theorem. *)
+From Coq Require Import List NArith ZArith QArith Qcanon String Bool Permutation.
+From EKW Require Import Backends.Tensor Backends.Ops Backends.OpsProofs.
 From EKWgen Require Import Batchable.
 Import ListNotations.
 Open Scope string_scope.
 
-Definition marked : list string := map (fun x => fst (fst (fst x))) (filter (fun x => snd (fst x)) backend_facade).
-Theorem C15_marked_table : marked = ["max"; "min"; "sum"; "prod"; "concat"].
+Definition backends : list (list (string * impl)) := [arrayapi_table; xarray_table].
+
+(* every marked method resolves, on both back-ends, to a function known (and proved) to be batchable *)
+Definition generated_tables_ok : bool := marked_ok backend_facade backends.
+
+Theorem C15_generated_tables_ok : generated_tables_ok = true.
 Proof. vm_compute. reflexivity. Qed.
-Print Assumptions C15_marked_table.
+
+(* Every function the library marks as batchable satisfies, on both back-ends, for every axis keyword,
+   every number >= 2 of batches, every batch size >= 1 (a singleton batch is passed through, as
+   reduce() does), every valid tensor of every shape and value:
+       f (g b1, ..., g bk)  =  f (b1 ++ ... ++ bk)       (same value, or both fail).
+   Hence no function that violates the law is marked. *)
+Theorem C15_marked_are_batchable : forall meth tbl,
+  In meth (marked_of backend_facade) -> In tbl backends ->
+  exists m, resolve backend_facade tbl meth = Some m /\ forall axis, batch_law (denote m axis).
+Proof. exact (marked_ok_sound backend_facade backends C15_generated_tables_ok). Qed.
+
+(* the law is not trivially true: mean, std, var and stack violate it (so marking any of them
+   makes C15_generated_tables_ok fail -- `var` WAS marked in the repository, see the fix commit) *)
+Theorem C15_mean_std_var_stack_not_batchable : forall m,
+  known_not_batchable m = true -> ~ (forall axis, batch_law (denote m axis)).
+Proof. exact known_not_batchable_sound. Qed.
+
+(* "every partition": for the commutative reductions the batches may be ANY partition of the
+   arguments, in any order *)
+Theorem C15_reductions_any_partition : forall f axis args (batches : list (list tensor)),
+  existsb (String.eqb f) ["sum"; "prod"; "min"; "max"] = true ->
+  Permutation (List.concat batches) args ->
+  (2 <= List.length batches)%nat -> Forall (fun b => b <> []) batches -> Forall (Forall valid) batches ->
+  let F := fun ts => reduce_op f ts axis in
+  res_eqv (bind (mapM (batch_apply F) batches) F) (F args).
+Proof. exact reduce_any_partition. Qed.
+
+(* the mechanism the property is anchored in: a reduction of more than one argument is the
+   reduction of the new leading axis of the stacked arguments, whatever axis keyword is given *)
+Theorem C15_multi_is_stack_then_reduce : forall name o x y r axis,
+  redop_of name = Some o ->
+  reduce_op name (x :: y :: r) axis = bind (stack_op (x :: y :: r) 0%Z) (reduce_axis o 0).
+Proof.
+  intros name o x y r axis H. unfold reduce_op. rewrite H. unfold multi, stack0, stack_op.
+  destruct (common_shape (x :: y :: r)); reflexivity.
+Qed.
+
+(* ---- non-vacuity: concrete, non-trivial instances of every hypothesis ---- *)
+Example C15_nonvacuous_marked :
+  (exists meth, In meth (marked_of backend_facade)) /\
+  resolve backend_facade xarray_table "concat" = Some MConcat /\
+  resolve backend_facade arrayapi_table "min" = Some (MReduce "min").
+Proof. split; [eexists; left; reflexivity|]. vm_compute. tauto. Qed.
+
+(* the unmarked multi-argument methods of the current source are exactly the non-batchable ones *)
+Example C15_nonvacuous_unmarked :
+  resolve backend_facade arrayapi_table "var" = Some (MReduce "var") /\
+  resolve backend_facade xarray_table "stack" = Some MStack /\
+  known_not_batchable (MReduce "var") = true /\ known_not_batchable MStack = true /\
+  known_not_batchable (MReduce "mean") = true /\ known_not_batchable (MReduce "std") = true.
+Proof. vm_compute. tauto. Qed.
+
+(* a partition of four valid 2-vectors into two batches: the hypotheses of batch_law hold and both
+   sides are defined and equal for sum and for concat along axis -1 *)
+Example C15_nonvacuous_law :
+  (2 <= List.length witness)%nat /\ Forall (fun b => b <> []) witness /\ Forall (Forall valid) witness /\
+  (exists v, denote (MReduce "sum") 0%Z (List.concat witness) = Ok v /\
+             bind (mapM (batch_apply (denote (MReduce "sum") 0%Z)) witness) (denote (MReduce "sum") 0%Z) = Ok v) /\
+  (exists v, denote MConcat (-1)%Z (List.concat witness) = Ok v /\ shape v = [8%nat]).
+Proof.
+  destruct witness_ok as (H1 & H2 & H3). repeat split; try assumption.
+  - eexists. split; vm_compute; reflexivity.
+  - eexists. split; vm_compute; reflexivity.
+Qed.
+
+Example C15_nonvacuous_partition :
+  Permutation (List.concat [[v2 1 2]; [v2 3 4; v2 5 6]]) [v2 5 6; v2 1 2; v2 3 4].
+Proof. cbn. apply Permutation_sym. apply (Permutation_cons_app [v2 1 2; v2 3 4] [] (v2 5 6)). cbn. apply Permutation_refl. Qed.
+
+Example C15_nonvacuous_multi : redop_of "var" <> None /\ redop_of "max" <> None.
+Proof. split; discriminate. Qed.
+
+Print Assumptions C15_generated_tables_ok.
+Print Assumptions C15_marked_are_batchable.
+Print Assumptions C15_mean_std_var_stack_not_batchable.
+Print Assumptions C15_reductions_any_partition.
+Print Assumptions C15_multi_is_stack_then_reduce.
